@@ -156,7 +156,8 @@ func (rt *runtime) cmplEvaluateNodeBinaryExpression(node *nodeBinaryExpression) 
 		return right.resolve()
 	}
 
-	return rt.calculateBinaryExpression(node.operator, leftValue, rt.cmplEvaluateNodeExpression(node.right))
+	// 11.5-11.10: GetValue of the right operand precedes every conversion of the left one.
+	return rt.calculateBinaryExpression(node.operator, leftValue, rt.cmplEvaluateNodeExpression(node.right).resolve())
 }
 
 func (rt *runtime) cmplEvaluateNodeBinaryExpressionComparison(node *nodeBinaryExpression) Value {
